@@ -158,6 +158,13 @@ def items_for(tier):
             items += searches.scen_cycle(fl, alg, 3, m, ('filter',), prios=prios, transposes=trs)
         items += searches.scen_order(fl, 3, m + 1, ('none', 'foreach'), transposes=trs)
         items += searches.scen_order(fl, 3, m, ('filter',), transposes=trs)
+        if directed:
+            # builder methods called in the opposite order, and transpose() called twice, must configure the same search in both flavours
+            for alg in ('bfs', 'dfs', 'pfs'):
+                items += searches.reordered(searches.scen_notarget(fl, alg, 3, 2, ('foreach',), transposes=(True,)))
+                items += searches.scen_notarget(fl, alg, 3, 2, ('foreach',), transposes=(2,))
+            items += searches.reordered(searches.scen_order(fl, 3, 2, ('foreach',), transposes=(True,)))
+            items += searches.scen_order(fl, 3, 2, ('foreach',), transposes=(2,))
     # `==` on edges (parallel edges with different values, same and different endpoints)
     for fl in PAIRS:
         for seq in ([(0, 1), (0, 1)], [(0, 1), (0, 2)], [(0, 0), (0, 0)], [(0, 1), (1, 0)]):
